@@ -245,7 +245,7 @@ def gen_ordinal(rng, kind=None, big=False):
 
 def gen_categorical(rng):
     m = rng.randint(1, 6)
-    k = rng.randint(1, 4)
+    k = rng.choice([1, 2, 3, 4, 2, 3, 10, 12])
     alts = gen.alt_ids(rng, m)
     prefs, seen = [], set()
     for _ in range(rng.randint(1, 6)):
